@@ -15,9 +15,9 @@
 #           ends with status SUCCESS - the cancellation is silently lost.
 # Confidence: high (genuine defect; cancel() docs: "may catch and react to
 # CancelTask, but should not suppress it" - the payload suppresses nothing).
-import sys; sys.path.insert(0, '/tmp/hunt2')
+import sys; sys.path.insert(0, '/repo')
 import usim
-assert usim.__file__.startswith('/tmp/hunt2')
+assert usim.__file__.startswith('/repo')
 from usim import run, time, Scope, until, eternity, instant, Flag, Resources, TaskCancelled
 
 log = []
